@@ -50,6 +50,40 @@ type Mutant struct {
 const icalBody = "BEGIN:VCALENDAR\r\nVERSION:2.0\r\nPRODID:-//x//y//EN\r\nBEGIN:VEVENT\r\nUID:u1\r\nDTSTAMP:20200101T000000Z\r\nDTSTART:20200101T000000Z\r\nEND:VEVENT\r\nEND:VCALENDAR\r\n"
 const vcardBody = "BEGIN:VCARD\r\nVERSION:3.0\r\nFN:x\r\nEND:VCARD\r\n"
 
+// richer valid documents for the byte-edit universe: every construct of the request grammars and of the object formats
+const richIcal = "BEGIN:VCALENDAR\r\nVERSION:2.0\r\nPRODID:-//x//y//EN\r\nBEGIN:VTIMEZONE\r\nTZID:Europe/Paris\r\nBEGIN:STANDARD\r\nDTSTART:19701025T030000\r\nTZOFFSETFROM:+0200\r\nTZOFFSETTO:+0100\r\nEND:STANDARD\r\nEND:VTIMEZONE\r\n" +
+	"BEGIN:VEVENT\r\nUID:u1\r\nDTSTAMP:20200101T000000Z\r\nDTSTART;TZID=Europe/Paris:20200101T100000\r\nDURATION:PT1H30M\r\nRRULE:FREQ=WEEKLY;COUNT=3;BYDAY=MO,WE\r\n" +
+	"SUMMARY;LANGUAGE=en;X-P=\"q;u:o,ted\":a\\, b\\; c\\n d\r\nDESCRIPTION:folded\r\n  line\r\nATTENDEE;CN=\"A B\";ROLE=CHAIR:mailto:a@example.com\r\n" +
+	"BEGIN:VALARM\r\nACTION:DISPLAY\r\nTRIGGER;RELATED=START:-PT15M\r\nDESCRIPTION:x\r\nEND:VALARM\r\nEND:VEVENT\r\nEND:VCALENDAR\r\n"
+const richVcard = "BEGIN:VCARD\r\nVERSION:4.0\r\nFN;LANGUAGE=en:Jane \\\"J\\\" Doe\r\nN:Doe;Jane;;;\r\nitem1.EMAIL;TYPE=work,home;PREF=1:jane@example.com\r\nTEL;TYPE=\"voice,cell\":+1 555\r\n" +
+	"NOTE:folded\r\n  text\\nwith escapes\\, and\\; more\r\nUID:urn:uuid:1\r\nEND:VCARD\r\n"
+const richCalQuery = `<?xml version="1.0" encoding="utf-8"?><C:calendar-query xmlns:C="urn:ietf:params:xml:ns:caldav" xmlns:D="DAV:"><D:prop><D:getetag/><C:calendar-data><C:comp name="VCALENDAR"><C:prop name="VERSION"/><C:comp name="VEVENT"><C:allprop/><C:allcomp/></C:comp></C:comp><C:expand start="20200101T000000Z" end="20200201T000000Z"/></C:calendar-data></D:prop>` +
+	`<C:filter><C:comp-filter name="VCALENDAR"><C:comp-filter name="VEVENT"><C:time-range start="20200101T000000Z" end="20200201T000000Z"/><C:prop-filter name="SUMMARY"><C:text-match negate-condition="yes" collation="i;ascii-casemap">a &amp; b</C:text-match><C:param-filter name="LANGUAGE"><C:is-not-defined/></C:param-filter></C:prop-filter><C:comp-filter name="VALARM"><C:is-not-defined/></C:comp-filter></C:comp-filter></C:comp-filter></C:filter></C:calendar-query>`
+const richCardQuery = `<?xml version="1.0" encoding="utf-8"?><C:addressbook-query xmlns:C="urn:ietf:params:xml:ns:carddav" xmlns:D="DAV:"><D:prop><D:getetag/><C:address-data content-type="text/vcard" version="4.0"><C:prop name="FN"/><C:prop name="EMAIL"/></C:address-data></D:prop>` +
+	`<C:filter test="allof"><C:prop-filter name="EMAIL" test="anyof"><C:text-match negate-condition="yes" match-type="starts-with" collation="i;unicode-casemap">ja&lt;ne</C:text-match><C:param-filter name="TYPE"><C:text-match match-type="equals">work</C:text-match></C:param-filter></C:prop-filter><C:prop-filter name="NICKNAME"><C:is-not-defined/></C:prop-filter></C:filter><C:limit><C:nresults>5</C:nresults></C:limit></C:addressbook-query>`
+const richCalMultiget = `<?xml version="1.0"?><C:calendar-multiget xmlns:C="urn:ietf:params:xml:ns:caldav" xmlns:D="DAV:"><D:prop><D:getetag/><C:calendar-data/></D:prop><D:href>/u/cal/c1/o1.ics</D:href><D:href>/u/cal/c1/a%20b.ics</D:href></C:calendar-multiget>`
+const richCardMultiget = `<?xml version="1.0"?><C:addressbook-multiget xmlns:C="urn:ietf:params:xml:ns:carddav" xmlns:D="DAV:"><D:prop><D:getetag/><C:address-data/></D:prop><D:href>/u/card/b1/o1.vcf</D:href><D:href>/u/card/b1/%C3%BC.vcf</D:href></C:addressbook-multiget>`
+const richPropfind = `<?xml version="1.0"?><D:propfind xmlns:D="DAV:" xmlns:C="urn:ietf:params:xml:ns:caldav" xmlns:A="urn:ietf:params:xml:ns:carddav"><D:prop><D:resourcetype/><D:displayname/><D:getetag/><D:current-user-principal/><C:calendar-home-set/><A:addressbook-home-set/><C:supported-calendar-component-set/><x:foo xmlns:x="urn:x"/></D:prop></D:propfind>`
+
+// richBodies are further valid bodies of a (service, method) whose byte edits are sent
+func richBodies(r Req) []string {
+	switch r.M {
+	case "PROPFIND":
+		return []string{richPropfind}
+	case "REPORT":
+		if r.Srv == "card" {
+			return []string{richCardQuery, richCardMultiget}
+		}
+		return []string{richCalQuery, richCalMultiget}
+	case "PUT":
+		if r.Srv == "card" {
+			return []string{richVcard}
+		}
+		return []string{richIcal}
+	}
+	return nil
+}
+
 var calPaths = []string{"/", "/u/", "/u/cal/", "/u/cal/c1/", "/u/cal/c1/o1.ics", "/u/cal/c1/o1.ics/deep"}
 var cardPaths = []string{"/", "/u/", "/u/card/", "/u/card/b1/", "/u/card/b1/o1.vcf", "/u/card/b1/o1.vcf/deep"}
 var davPaths = []string{"/", "/f.txt", "/d", "/absent"}
@@ -365,6 +399,59 @@ func main() {
 					ev["k"], ev["ci"], ev["want"], ev["r"] = "truncation", cut, want, rr
 					enc.Encode(ev)
 					n++
+				}
+				// byte-level edits of the valid documents / objects: each position x {delete, structural characters of XML, iCalendar
+				// and vCard, NUL, a non-UTF-8 byte}, and seeded pairs of such edits; the result is either still acceptable or
+				// refused, never a server error
+				alphabet := []int{-1, ';', ':', '=', '"', '\n', '\r', '<', '>', '&', '/', ',', ' ', 0, 0xff, '\\'}
+				edit := func(v []byte, pos, a int) []byte {
+					var b []byte
+					if a < 0 {
+						return append(append(b, v[:pos]...), v[pos+1:]...)
+					}
+					return append(append(append(b, v[:pos]...), byte(a)), v[pos+1:]...)
+				}
+				for vi, v := range append([]string{v}, richBodies(r)...) {
+					if base := send(get(srv, true), r, pathOf(srv, level), []byte(v), false); base["st"].(int) >= 500 {
+						if vi > 0 {
+							fmt.Fprintln(os.Stderr, "rich document refused with", base["st"], srv, m)
+							os.Exit(2)
+						}
+						continue
+					} else if vi > 0 && base["st"].(int) >= 400 {
+						fmt.Fprintln(os.Stderr, "rich document is not valid:", base["st"], srv, m, vi)
+						os.Exit(2)
+					}
+					get(srv, true)
+					sendEdit := func(kind string, ci int, b []byte) {
+						w := get(srv, false)
+						rr := r
+						rr.Body = "byte-edited"
+						ev := send(w, rr, pathOf(srv, level), b, false)
+						if ev["mut"].(int) > 0 {
+							get(srv, true)
+						}
+						ev["k"], ev["ci"], ev["want"], ev["r"] = kind, ci, "no5xx", rr
+						enc.Encode(ev)
+						n++
+					}
+					bstep := 1
+					if len(v)*len(alphabet)*6 > *nfuzz {
+						bstep = len(v)*len(alphabet)*6 / *nfuzz + 1
+					}
+					for pos := int(next() % uint64(bstep)); pos < len(v); pos += bstep {
+						for _, a := range alphabet {
+							if a >= 0 && byte(a) == v[pos] {
+								continue
+							}
+							sendEdit("byteedit", pos, edit([]byte(v), pos, a))
+						}
+					}
+					for k := 0; k < *nfuzz/40; k++ {
+						b := edit([]byte(v), int(next()%uint64(len(v))), alphabet[next()%uint64(len(alphabet))])
+						b = edit(b, int(next()%uint64(len(b))), alphabet[next()%uint64(len(alphabet))])
+						sendEdit("byteedit2", k, b)
+					}
 				}
 				for k := 0; k < 40; k++ {
 					ln := int(next()%200) + 1
